@@ -55,6 +55,16 @@ def cgraph(c):
 def name_from(w: World, a: int):
     if a % 17 == 16:
         return w.fresh_name("u")
+    if a % 19 == 18:
+        # a name shaped like a generated one, a little AHEAD of where the graphs' counters can be by now
+        ahead = (a // 19) % 3
+        if (a // 57) % 2:
+            top = max([int(v.name[4:]) for v in w.values if v.name and v.name.startswith("val_") and v.name[4:].isdigit()] or [-1])
+            return f"val_{top + 1 + ahead}"
+        op = OPTYPES[(a // 114) % len(OPTYPES)]
+        pre = f"node_{op}_"
+        top = max([int(n.name[len(pre):]) for n in w.nodes if n.name and n.name.startswith(pre) and n.name[len(pre):].isdigit()] or [-1])
+        return f"{pre}{top + 1 + ahead}"
     return NAME_POOL[a % len(NAME_POOL)]
 
 
@@ -273,6 +283,7 @@ def op_append(w, a, b, c, d):
     n = pick_where(w.nodes, b, _valid_for(cont)) if d & 1 else w.node(b)
     if n is None:
         return None
+    w.last_passed = [n]
     cont.append(n)
 
 
@@ -281,6 +292,7 @@ def op_extend(w, a, b, c, d):
     if cont is None:
         return None
     nodes = planted_nodes(w, cont, b, d, _valid_for(cont))
+    w.last_passed = list(nodes)
     # any Iterable[Node] is accepted: sometimes pass a one-shot iterator / generator
     if (d >> 13) % 3 == 1:
         cont.extend(iter(nodes))
@@ -305,6 +317,7 @@ def op_insert_before(w, a, b, c, d):
     if anchor is None:
         return None
     nodes = planted_nodes(w, cont, b, d, _valid_for(cont))
+    w.last_passed = list(nodes)
     arg = nodes[0] if len(nodes) == 1 and d & 1 else (iter(nodes) if (d >> 13) % 2 else nodes)
     cont.insert_before(anchor, arg)
 
@@ -317,6 +330,7 @@ def op_insert_after(w, a, b, c, d):
     if anchor is None:
         return None
     nodes = planted_nodes(w, cont, b, d, _valid_for(cont))
+    w.last_passed = list(nodes)
     arg = nodes[0] if len(nodes) == 1 and d & 1 else ((n for n in nodes) if (d >> 13) % 2 else nodes)
     cont.insert_after(anchor, arg)
 
@@ -327,6 +341,7 @@ def op_node_prepend(w, a, b, c, d):
         return None
     g = n.graph
     nodes = planted_nodes(w, g, b, d, (lambda m: m.graph is None or m.graph is g))
+    w.last_passed = list(nodes)
     n.prepend(nodes)
 
 
@@ -336,6 +351,7 @@ def op_node_append(w, a, b, c, d):
         return None
     g = n.graph
     nodes = planted_nodes(w, g, b, d, (lambda m: m.graph is None or m.graph is g))
+    w.last_passed = list(nodes)
     n.append(nodes)
 
 
@@ -366,6 +382,7 @@ def op_sort(w, a, b, c, d):
     cont = C(w, a)
     if cont is None:
         return None
+    w.last_passed = list(cgraph(cont).all_nodes())  # sort() hands every node to its graph again
     cont.sort()
 
 
